@@ -185,7 +185,7 @@ func properties() map[string]*Property {
 			"unescapeUnicodeChar", "growBytesSliceCapacity", "errUnexpectedByteInString", "getu4", "countWhitespace")...),
 		Kinds:  map[string]bool{"frame": true, "ensures": true, "inv-init": true, "inv-preserved": true, "requires@call": true},
 		Labels: []string{"C16"},
-		Extra:  []string{"global-store-scan"},
+		Extra:  []string{"global-store-scan", "bounded-append-semantics"},
 		Assume: []string{
 			"destination and input slices do not overlap (a destination overlapping the input would itself be a write to the input)",
 			"handlers do not write the input (user code)",
